@@ -31,6 +31,12 @@ class MarkedPart(Part, Marked):
 
 
 @dataclass(eq=False)
+class LoosePart(Part):
+    """compared by identity like every part, but not hashable (what a plain @dataclass with eq=True is as well)"""
+    __hash__ = None
+
+
+@dataclass(eq=False)
 class Box(Symbol):
     label: str = ""
     lid: Part = None
